@@ -480,6 +480,7 @@ def expand(prog, f, depth=2, local_only=False, skip_names=()):
     from .desugar import _FuseGen
 
     _propagate_generator_temps(root)
+    root = _propagate_callable_temps(root)
     root = _FuseGen().visit(root)   # generator arguments substituted into helper comprehensions fuse with them
     ast.fix_missing_locations(root)
     return root
@@ -489,6 +490,57 @@ def _is_inliner_temp(name):
     import re
 
     return name.startswith("hoist__") or re.fullmatch(r".+__.+_\d+", name) is not None
+
+
+def _propagate_callable_temps(root):
+    """`t = lambda v: E` / `t = operator.attrgetter("a")` bound once by the inliner (a function-valued argument) is written at its
+    calls, and a call of a literal lambda is replaced by its body: `pick([edge(x) for x in xs])` reads `min([x.a for x in xs])`."""
+    from .desugar import _Functional
+
+    stores, vals = {}, {}
+    for n in ast.walk(root):
+        if isinstance(n, ast.Name) and isinstance(n.ctx, (ast.Store, ast.Del)):
+            stores[n.id] = stores.get(n.id, 0) + 1
+    for n in ast.walk(root):
+        if isinstance(n, ast.Assign) and len(n.targets) == 1 and isinstance(n.targets[0], ast.Name) and _is_inliner_temp(n.targets[0].id) \
+                and stores.get(n.targets[0].id) == 1:
+            v = n.value
+            if isinstance(v, ast.Lambda) or (isinstance(v, ast.Call) and ast.unparse(v.func) in ("attrgetter", "operator.attrgetter")
+                                             and len(v.args) == 1 and isinstance(v.args[0], ast.Constant)):
+                vals[n.targets[0].id] = v
+    if not vals:
+        return root
+
+    class S(ast.NodeTransformer):
+        def visit_Name(self, x):
+            return copy.deepcopy(vals[x.id]) if isinstance(x.ctx, ast.Load) and x.id in vals else x
+
+        def visit_Assign(self, st):
+            if len(st.targets) == 1 and isinstance(st.targets[0], ast.Name) and st.targets[0].id in vals:
+                return None
+            return self.generic_visit(st)
+
+    root = S().visit(root)
+
+    class B(ast.NodeTransformer):
+        def visit_Call(self, node):
+            self.generic_visit(node)
+            f = node.func
+            if isinstance(f, ast.Lambda) and not node.keywords and len(f.args.args) == len(node.args) and not f.args.defaults \
+                    and not f.args.vararg and not f.args.kwarg and not f.args.kwonlyargs \
+                    and all(isinstance(a, (ast.Name, ast.Constant, ast.Attribute)) for a in node.args):
+                m = {p.arg: a for p, a in zip(f.args.args, node.args)}
+
+                class R(ast.NodeTransformer):
+                    def visit_Name(self_, x):
+                        return copy.deepcopy(m[x.id]) if x.id in m and isinstance(x.ctx, ast.Load) else x
+                return ast.copy_location(R().visit(copy.deepcopy(f.body)), node)
+            return node
+
+    root = B().visit(root)
+    root = _Functional().visit(root)
+    ast.fix_missing_locations(root)
+    return root
 
 
 def _propagate_generator_temps(root):
